@@ -111,7 +111,9 @@ func (m *Metrics) Format(scaler Scaler) string {
 // computeStats updates the derived statistics in m from the raw
 // samples in m.Values.
 func (m *Metrics) computeStats() {
-	// Discard outliers.
+	// Discard outliers. Start over: the statistics may be
+	// computed more than once (every call of Tables does).
+	m.RValues = nil
 	values := stats.Sample{Xs: m.Values}
 	q1, q3 := values.Percentile(0.25), values.Percentile(0.75)
 	lo, hi := q1-1.5*(q3-q1), q3+1.5*(q3-q1)
